@@ -33,7 +33,7 @@ func nextDown(x float64) float64 { return math.Nextafter(x, math.Inf(-1)) }
 func genValueSpec(g *Gen) *BucketSpec {
 	n := pick(g, 1, 1, 2, 3, 3, 4, 6, 8)
 	if g.Bool(3) {
-		n = g.Range(9, 64)
+		n = pick(g, g.Range(9, 64), 64, 64, 63, 32, 33) // "1..64 bounds": the ends and the word sizes in between
 	}
 	pool := []float64{-100, -1, -0.5, 0, 0.5, 1, 1.5, 2, 3, 10, 1e9, -1e9, 1e300, 5e-324, math.Copysign(0, -1)}
 	s := &BucketSpec{}
@@ -53,7 +53,7 @@ func genValueSpec(g *Gen) *BucketSpec {
 func genDurSpec(g *Gen) *BucketSpec {
 	n := pick(g, 1, 1, 2, 3, 3, 4, 6, 8)
 	if g.Bool(3) {
-		n = g.Range(9, 64)
+		n = pick(g, g.Range(9, 64), 64, 64, 63, 32, 33)
 	}
 	pool := []int64{-1e9, -1, 0, 1, 1000, 1e6, 5e8, 1e9, 2e9, 60e9, math.MaxInt64 - 1, math.MinInt64 + 1}
 	s := &BucketSpec{Dur: true}
